@@ -30,6 +30,24 @@ Definition qualifies (m op : string) (t : pyval) (x y : list Z) : bool :=
 Definition gray (m op : string) (t : pyval) (x y : list Z) : bool :=
   negb (Bool.eqb (cmp_op op (raw_score m x y) t) (cmp_op op (reported_score m x y) t)).
 
+(* the similarity apply_matcher computes: py_stringmatching's get_raw_score called on the
+   tokenizer's output LISTS (tokenizer order).  Its first check `if set1 == set2: return 1.0`
+   compares the lists, so it is order-sensitive: equal SETS listed in different orders fall
+   through to the formula (Jaccard / cosine / Dice).  The join calls the same function on lists
+   sorted by the global token ordering, where equal sets are equal lists (raw_score above).
+   One-empty pairs and OVERLAP / OVERLAP_COEFFICIENT: as raw_score.                        *)
+Definition matcher_raw_score (m : string) (x y : list Z) : pyval :=
+  if is_jcd m then
+    let a := len (dedup x) in let b := len (dedup y) in let o := overlap_sets x y in
+    if list_eqbZ x y then PFloat f_one
+    else if Z.eqb o a && Z.eqb o b then PFloat (sim_formula m a b o)
+    else raw_score m x y
+  else raw_score m x y.
+(* gray for the matcher path: the comparison on the matcher's raw score and the comparison on the
+   join's reported (rounded) score disagree *)
+Definition gray_pipe (m op : string) (t : pyval) (x y : list Z) : bool :=
+  negb (Bool.eqb (cmp_op op (matcher_raw_score m x y) t) (cmp_op op (reported_score m x y) t)).
+
 Definition find_row (k : Z) (T : list row) : option row := find (fun r => Z.eqb (fst r) k) T.
 Definition has_pair (lk rk : Z) (obs : list out_row) : bool :=
   existsb (fun o : out_row => Z.eqb (fst (fst o)) lk && Z.eqb (snd (fst o)) rk) obs.
